@@ -54,6 +54,11 @@ def gen(tier, rng):
             else:
                 add(api="deflate", inp=inp, level=level, wrap=wraps[(ci + level) % 5], hist_bits=[0, 12, 0, 15, 9, 0][ci], lbuf=[3, 1, 0][level % 3],
                     calls=[[[4096, 289, 20000][ci % 3], 1 << 16, [0, 1, 2][(ci + level) % 3], 1]] * (n // 289 + 2), meta={"cls": cls + "-medium", "cpu": cpu})
+    # long symbols (far matches with many extra bits) through the vectorised Huffman bit packers encode_df _04 (AVX2) / _06 (AVX-512)
+    for ci, (cpu, level) in enumerate([("avx2", 1), ("avx2", 2), ("avx2", 3), ("avx512g2", 2), ("avx2", 3), ("avx2", 1), ("avx2", 2), ("avx512g2", 1)] + ([("avx2", 1), ("avx512", 1), ("avx512g2", 3), ("base", 2), ("sse", 3)] if tier == "thorough" else [])):
+        n = 250000 if tier == "quick" else 1200000
+        inp = igz.corpus(rng, ["farcopy", "symmix", "symmix", "symmix"][ci % 4], n)
+        add(api=["deflate_stateless", "deflate"][ci % 2], inp=inp, level=level, wrap=[1, 0, 3][ci % 3], lbuf=3, calls=[[n, n + 5000, 0, 1]], meta={"cls": "farcopy", "cpu": cpu})
     # large inputs: stored-block splitting at 65535, 16-bit hash position wrap, internal buffer wrap
     big = [("random", 70000, 0), ("periodic", 200000, 2), ("text", 66000, 1), ("records", 36000 if tier == "quick" else 140000, 3)]
     if tier == "thorough":
@@ -97,6 +102,7 @@ def run(tier, replay=None):
         for t in r["stats"]["types"]: types[t] = types.get(t, 0) + 1
     cov = {"states": len(scns), "transitions": calls, "traces_validated_against_impl": len(scns), "evaluations": len(scns), "distinct_nontrivial": len(nontriv),
            "block_types_seen": types, "cpu_levels": sorted(set(s["meta"]["cpu"] for s in scns)), "tlc_wall_s": round(tlcwall, 1), "faults": faults,
+           "state_machine_conformance": {"model": "spec/DeflateStreamOps.tla (tabulated by spec/gen/GenDeflateStream.tla)", "calls_not_in_model": igz.drift_count(res)},
            "rule": "scenarios = covering sample of {level 0-3} x {NO/SYNC/FULL flush} x {raw,gzip,gzip_nohdr,zlib,zlib_nohdr} x hist_bits {0,9..15} x {default,static,custom table (level 0)} x level_buf {MIN..EXTRA_LARGE} x simulated CPU level "
                    "{base,sse,avx,avx2,avx512,avx512+G2} x {one-shot, streaming} over an input corpus (empty, 1-16 B, lengths around ISAL_LOOK_AHEAD and 8K, incompressible, 0x00/0xFF runs, text, periodic, record-structured, >=64KiB); "
                    "each recorded trace is judged by TLC (TraceDeflate.tla): accounting rules per call, and at END Unwrap(wrapper, output) must be Valid, decode to exactly the input, end at the last byte, with the trailer matching the spec-computed CRC-32/ISIZE or Adler-32; "
